@@ -402,7 +402,7 @@ pub const DEF: PropertyDef = PropertyDef {
            lists: proptest lists of 1..8 values up to 62 bits (non-trivial = >= 2 values, one negative, one multi-digit). \
            all_strings: every base64-alphabet string up to length 3/4; long_strings: generated strings with continuation runs \
            biased to 11..14 digits (non-trivial = decodes with a run >= 2). alphabet: every char U+0000..U+07FF alone and \
-           embedded, plus 3/4-byte samples (must be rejected unless in the alphabet)",
+           embedded, plus 3/4-byte samples (must be rejected unless in the alphabet). map_encoder_deltas: two-token maps whose generated column / original line / original column go from a to b for all pairs of 104 edge values (and random pairs), written by the map encoder and read back with the reference reader",
     assumptions: &[
         "13-digit values whose magnitude needs more than 62 bits are executed for crash-freedom only (the statement is silent)",
         "the reference writer is cross-checked against the third-party vlq crate",
